@@ -125,3 +125,32 @@ Proof.
   split; [intros r [<-|[<-|[]]]; vm_compute; reflexivity|].
   eexists. eexists. vm_compute. repeat split.
 Qed.
+
+(* ---- well-behaved ROLLBACK hooks in the revision rolled back to: install {a,b} with the hook hr
+   on pre- and post-rollback (default policy); upgrade --atomic to {a',b'} with PATCH b rejected:
+   the recovery runs hr twice and restores revision 1 ---- *)
+Definition rh_hr : hook := mkHook (mkRes "ConfigMap" "hr" [("d:h", "1")]) [PreRollback; PostRollback] 0 [].
+Definition rh_w1 : world :=
+  fst (fst (run_store_op "rel" "default" (mkOp (OpInstall fl0 1 1 [cmr "a" "v1"; cmr "b" "v1"] [rh_hr]) ContainLedger.nofault no_cf) (mkW [] []))).
+Definition rh_g : release := mkRelease 1 SDeployed 1 1 [cmr "a" "v1"; cmr "b" "v1"] [rh_hr].
+Definition rh_mani : list res := [cmr "a" "v2"; cmr "b" "v2"].
+
+Lemma atomic_upgrade_rollback_hooks_example :
+  f_no_hooks fl_atomic = false /\
+  max_rev_of (filter good_filter (w_led rh_w1)) = Some rh_g /\
+  hooks_for PreRollback (hooks rh_g) = [rh_hr] /\ hooks_for PostRollback (hooks rh_g) = [rh_hr] /\
+  has_policy rh_hr BeforeHookCreation = true /\ String.eqb (h_kind rh_hr) "CustomResourceDefinition" = false /\
+  in_keys (rkey (h_res rh_hr)) (manifest rh_g) = false /\ in_keys (rkey (h_res rh_hr)) rh_mani = false /\
+  hooks_for PreUpgrade [rh_hr] = [] /\ hooks_for PostUpgrade [rh_hr] = [] /\
+  cf_h hx_cf = None /\ cf_wait hx_cf = false /\
+  (forall r, In r (manifest rh_g) -> in_keys (rkey r) rh_mani = true) /\
+  exists w' t,
+    run_store_op "rel" "default" (mkOp (OpUpgrade fl_atomic 2 2 rh_mani [rh_hr]) ContainLedger.nofault hx_cf) rh_w1 = (w', OErr EOtherErr, t) /\
+    statuses (w_led w') = [(1, SSuperseded); (2, SFailed); (3, SDeployed)] /\
+    data_view w' = [("ConfigMap/a", Some "v1"); ("ConfigMap/b", Some "v1"); ("ConfigMap/hr", None)].
+Proof.
+  split; [reflexivity|]. split; [vm_compute; reflexivity|].
+  do 10 (split; [vm_compute; reflexivity|]).
+  split; [intros r [<-|[<-|[]]]; vm_compute; reflexivity|].
+  eexists. eexists. vm_compute. repeat split.
+Qed.
